@@ -140,6 +140,10 @@ package node
 //@   ensures[refused] ret0 != nil ==> c.head == old(c.head) && c.seq == old(c.seq)
 //@   ensures[accepted] ret0 == nil ==> __lastret("InsertEventAndRunConsensus", 0) == nil
 //@   ensures[head]    ret0 == nil ==> (c.head == old(c.head) && c.seq == old(c.seq)) || (c.head == hg.HexOf(event) && c.seq == event.Body.Index)
+// which of the two: the head moves exactly when the inserted event was created by this node's own key (a head that
+// follows other creators' events makes every later self-event name a foreign self-parent; not exported to callers)
+//@   establishes[head-own]     ret0 == nil ==> __called("PublicKeyHex") && (hg.CreatorOf(event) == __lastretT[string]("PublicKeyHex", 0) ==> c.head == hg.HexOf(event) && c.seq == event.Body.Index)
+//@   establishes[head-foreign] ret0 == nil && hg.CreatorOf(event) != __lastretT[string]("PublicKeyHex", 0) ==> c.head == old(c.head) && c.seq == old(c.seq)
 //@   ensures[pools]   __eq(c.transactionPool, old(c.transactionPool)) && __eq(c.internalTransactionPool, old(c.internalTransactionPool))
 
 //@ func (c *core) signAndInsertSelfEvent(event *hg.Event) error
